@@ -70,6 +70,11 @@ type transCfg struct {
 	skip     []string
 	sliceVar string
 	sliceRes int
+	// sliceEarly: the translated prefix may return before sliceVar is declared;
+	// the definition then has type option T: None = "returned earlier"
+	// (whatever was returned), Some v = the value of sliceVar.  No check on
+	// the function's final return is made (sliceRes is ignored).
+	sliceEarly bool
 }
 
 // ---------------------------------------------------------------- types
@@ -344,22 +349,23 @@ type kont struct {
 }
 
 type tr struct {
-	g       *codeGen
-	p       *pkg
-	file    *ast.File
-	fd      *ast.FuncDecl
-	cfg     transCfg
-	imports map[string]string // local name -> import path
-	scopes  []map[string]*lvar
-	lconsts []map[string]cval
-	used    map[string]bool
-	psrc    map[string]pspec
-	pnil    map[string]pspec
-	res     []string
-	bad     []string
-	nloop   int
-	pkgc    map[string]constant.Value
-	guards  []string // checked mode: conditions under which the expressions read so far do not panic
+	g        *codeGen
+	p        *pkg
+	file     *ast.File
+	fd       *ast.FuncDecl
+	cfg      transCfg
+	imports  map[string]string // local name -> import path
+	scopes   []map[string]*lvar
+	lconsts  []map[string]cval
+	used     map[string]bool
+	psrc     map[string]pspec
+	pnil     map[string]pspec
+	res      []string
+	bad      []string
+	nloop    int
+	pkgc     map[string]constant.Value
+	sliceRet *ast.ReturnStmt
+	guards   []string // checked mode: conditions under which the expressions read so far do not panic
 }
 
 func (t *tr) guard(c string) {
@@ -1348,6 +1354,9 @@ func (t *tr) resCoqType() string {
 	if len(t.res) > 0 {
 		r = coqType(tupleT(t.res))
 	}
+	if t.cfg.sliceEarly && r != "" {
+		r = "option (" + strings.TrimSuffix(r, "%type") + ")"
+	}
 	if t.cfg.checked && r != "" {
 		return "option (" + strings.TrimSuffix(r, "%type") + ")"
 	}
@@ -1524,7 +1533,19 @@ func zeroVal(ty string) string {
 }
 
 func (t *tr) ret(x *ast.ReturnStmt) string {
-	r := t.ret0(x)
+	var r string
+	if t.cfg.sliceEarly {
+		if x == t.sliceRet {
+			r = "(Some " + t.ret0(x) + ")"
+		} else {
+			for _, e := range x.Results {
+				t.expr(e) // must at least be readable
+			}
+			r = "None (* returned earlier *)"
+		}
+	} else {
+		r = t.ret0(x)
+	}
 	if t.cfg.checked {
 		return "Some " + r
 	}
@@ -2159,7 +2180,7 @@ func (t *tr) sliceBody(all []ast.Stmt) []ast.Stmt {
 					t.fail(s, "address of "+t.cfg.sliceVar+" is taken")
 				}
 			case *ast.ReturnStmt:
-				if t.cfg.sliceRes >= len(x.Results) || !isIdent(x.Results[t.cfg.sliceRes], t.cfg.sliceVar) {
+				if !t.cfg.sliceEarly && (t.cfg.sliceRes >= len(x.Results) || !isIdent(x.Results[t.cfg.sliceRes], t.cfg.sliceVar)) {
 					t.fail(x, fmt.Sprintf("result %d of a return is not %s", t.cfg.sliceRes, t.cfg.sliceVar))
 				}
 			}
@@ -2167,11 +2188,12 @@ func (t *tr) sliceBody(all []ast.Stmt) []ast.Stmt {
 		})
 	}
 	last, ok := all[len(all)-1].(*ast.ReturnStmt)
-	if !ok || t.cfg.sliceRes >= len(last.Results) || !isIdent(last.Results[t.cfg.sliceRes], t.cfg.sliceVar) {
+	if !t.cfg.sliceEarly && (!ok || t.cfg.sliceRes >= len(last.Results) || !isIdent(last.Results[t.cfg.sliceRes], t.cfg.sliceVar)) {
 		t.fail(nil, "the body does not end in a return of "+t.cfg.sliceVar)
 	}
 	out := append([]ast.Stmt{}, kept[:cut+1]...)
-	return append(out, &ast.ReturnStmt{Results: []ast.Expr{ast.NewIdent(t.cfg.sliceVar)}})
+	t.sliceRet = &ast.ReturnStmt{Results: []ast.Expr{ast.NewIdent(t.cfg.sliceVar)}}
+	return append(out, t.sliceRet)
 }
 
 func (t *tr) noRead(s ast.Stmt, names map[string]bool) {
